@@ -1240,6 +1240,9 @@ class SmtLibParser(object):
     def _cmd_assert(self, current: str, tokens: Tokenizer) -> SmtLibCommand:
         """(assert <term>)"""
         expr = self.get_expression(tokens)
+        if expr is not None and not self.get_type(expr).is_bool_type():
+            raise PysmtSyntaxError("The term of an assert command must be "
+                                   "Boolean: '%s'" % expr, tokens.pos_info)
         self.consume_closing(tokens, current)
         return SmtLibCommand(current, [expr])
 
